@@ -424,8 +424,9 @@ impl DnsCache {
                                 .or_insert_with(HashSet::new)
                                 .insert(instance_name.to_string());
 
-                            // don't keep empty value for this key.
-                            self.srv.remove(instance_name);
+                            // The empty value stays until the loop is done, so that the instance
+                            // is reported for every `ty_domain` that lists it (type and subtypes).
+                            // It is dropped below.
                         }
                     }
 
